@@ -204,12 +204,17 @@ def userNameToFileName(
     sliceLength = maxFileNameLength - prefixLength - suffixLength
     userName = userName[:sliceLength]
     # test for illegal files names
-    parts = []
-    for part in userName.split("."):
-        if part.lower() in reservedFileNames:
-            part = "_" + part
-        parts.append(part)
-    userName = ".".join(parts)
+    while True:
+        parts = []
+        for part in userName.split("."):
+            if part.lower() in reservedFileNames:
+                part = "_" + part
+            parts.append(part)
+        userName = ".".join(parts)
+        if len(userName) <= sliceLength:
+            break
+        # the added underscores made the name too long: clip and test again
+        userName = userName[:sliceLength]
     # test for clash
     fullName = prefix + userName + suffix
     if fullName.lower() in existing:
@@ -263,8 +268,10 @@ def handleClash1(
     prefixLength = len(prefix)
     suffixLength = len(suffix)
     if prefixLength + len(userName) + suffixLength + 15 > maxFileNameLength:
-        l = prefixLength + len(userName) + suffixLength + 15
-        sliceLength = maxFileNameLength - l
+        sliceLength = maxFileNameLength - prefixLength - suffixLength - 15
+        if sliceLength < 0:
+            # no room for the 15 digit counter: go to the next fallback
+            return handleClash2(existing, prefix, suffix)
         userName = userName[:sliceLength]
     finalName = None
     # try to add numbers to create a unique name
